@@ -156,6 +156,20 @@ class ConcreteCtx(_Base):
     def hash(self, obj):
         return hash(obj)
 
+    def hexstr(self, b):
+        return bytes(b).hex()
+
+    def float_within_half_unit(self, x, a, scale):
+        """|x - a/scale| < 0.5/scale, decided exactly with rationals"""
+        from fractions import Fraction
+        return abs(Fraction(float(x)) - Fraction(a, scale)) < Fraction(1, 2 * scale)
+
+    def float_eq(self, x, y):
+        return float(x) == float(y)
+
+    def float_div(self, a, b):
+        return float(a) / b
+
     def b64encode(self, b):
         import base64
         return base64.b64encode(bytes(b))
@@ -364,6 +378,30 @@ def make_symctx_class():
         def hash(self, obj):
             """the library object's own __hash__ result (a hash token comparing like the hashed bytes)"""
             return type(obj).__hash__(obj)
+
+        def hexstr(self, b):
+            from . import stubs
+            return stubs.hexlify_v(vtypes.VBytes(b)).decode('ascii')
+
+        def float_within_half_unit(self, x, a, scale):
+            """|x - a/scale| < 0.5/scale  <=>  (2a-1)/(2 scale) < x < (2a+1)/(2 scale): exact real comparison of a double with rationals"""
+            from . import symfloat
+            xe = symfloat.SymFloat.lift(x)
+            # a < 2^53: its double is exact, so fpToReal(double(a)) is a itself (keeps the query inside FP + reals)
+            ar = z3.fpToReal(symfloat.SymFloat.lift(a)) if isinstance(a, core.SymInt) else z3.RealVal(a)
+            xr = z3.fpToReal(xe)
+            return core.mkbool(z3.And(z3.Not(z3.fpIsNaN(xe)), z3.Not(z3.fpIsInf(xe)), xr * (2 * scale) > 2 * ar - 1, xr * (2 * scale) < 2 * ar + 1))
+
+        def float_eq(self, x, y):
+            from . import symfloat
+            ex, ey = symfloat.SymFloat.lift(x), symfloat.SymFloat.lift(y)
+            if ex.eq(ey):
+                return True
+            return core.mkbool(z3.fpEQ(ex, ey))
+
+        def float_div(self, a, b):
+            from . import symfloat
+            return symfloat.SymFloat(z3.fpDiv(symfloat.RNE, symfloat.SymFloat.lift(a), symfloat.SymFloat.lift(b)))
 
         def b64encode(self, b):
             from . import stubs
